@@ -1,3 +1,4 @@
+import BlugeGen.C12
 /-! # Bluge.Codec — the snapshot file codec of `index/snapshot.go` and `loadSnapshot` of `index/writer.go`
 
 Core Lean only. Byte strings are `List (BitVec 8)`.
@@ -27,11 +28,16 @@ abbrev Bytes := List Byte
 
 /-! ## encoding/binary -/
 
-/-- `binary.PutUvarint` -/
-def putUvarint (x : Nat) : Bytes :=
-  if x < 128 then [BitVec.ofNat 8 x] else BitVec.ofNat 8 (x % 128 + 128) :: putUvarint (x / 128)
-termination_by x
-decreasing_by omega
+/-- loop of `binary.PutUvarint`: `for x >= 0x80 { buf[i] = byte(x) | 0x80; x >>= 7; i++ }; buf[i] = byte(x)`.
+Structural in the fuel so that the kernel can evaluate it. -/
+def putUvarintFuel : Nat → Nat → Bytes
+  | 0, x => [BitVec.ofNat 8 x]
+  | fuel + 1, x =>
+    if x < 128 then [BitVec.ofNat 8 x] else BitVec.ofNat 8 (x % 128 + 128) :: putUvarintFuel fuel (x / 128)
+
+/-- `binary.PutUvarint` (fuel `x` is never used up: the value shrinks by a factor 128 per byte;
+`putUvarint_small`, `putUvarint_big` in BlugeProofs.C12.Uvarint are the two equations of the loop) -/
+def putUvarint (x : Nat) : Bytes := putUvarintFuel x x
 
 /-- loop of `binary.Uvarint`: `i` index, `x` accumulated value, `s` shift. Result `(value, n)`:
 `n > 0` bytes read; `n = 0` buffer too small; `n < 0` overflow (`-n` bytes read).
@@ -194,22 +200,29 @@ inductive Err where
   | noSnapshot -- OpenReader: unable to find a usable snapshot
 deriving DecidableEq, Repr
 
+/-- the statement at which an unsafe outcome arises -/
+inductive Site where
+  | str       -- `strBytes := make([]byte, strLen)` in readVarLenString
+  | del       -- `deletedBytes := make([]byte, int(delLen))` in readSegmentSnapshot
+  | crcBytes  -- `data.Read(data.Len()-crcWidth, data.Len())` / formatting `fileCRCBytes` in loadSnapshot
+deriving DecidableEq, Repr
+
 /-- what running the Go code on an input does -/
 inductive Outcome (α : Type) where
   | ok (a : α)
   | error (e : Err)
-  | panic                -- a Go panic (makeslice: len out of range, slice bounds)
-  | alloc (n : Nat)      -- `make([]byte, n)` with `n` above the allocation budget is executed
-  | fault                -- access to unmapped memory (SIGSEGV)
+  | panic (s : Site)              -- a Go panic (makeslice: len out of range, slice bounds out of range)
+  | alloc (s : Site) (n : Nat)    -- `make([]byte, …)` brings the bytes claimed by this decode to `n`, above the budget
+  | fault (s : Site)              -- access to unmapped memory (SIGSEGV)
 deriving DecidableEq, Repr
 
 namespace Outcome
 @[inline] def bind {α β : Type} : Outcome α → (α → Outcome β) → Outcome β
   | ok a, f => f a
   | error e, _ => error e
-  | panic, _ => panic
-  | alloc n, _ => alloc n
-  | fault, _ => fault
+  | panic s, _ => panic s
+  | alloc s n, _ => alloc s n
+  | fault s, _ => fault s
 instance : Monad Outcome where
   pure := ok
   bind := bind
@@ -236,10 +249,11 @@ deriving DecidableEq, Repr
 def Cfg.pinned : Cfg := { boundedReads := false, uintLoop := false, crcCopy := false }
 def Cfg.guarded : Cfg := { boundedReads := true, uintLoop := true, crcCopy := true }
 
-/-- The configuration that matches /repo's current source. The correspondence run (`./check C12`)
-compares this model with the real code on every run; when a repair lands in /repo this is the line
-that changes. -/
-def currentCfg : Cfg := Cfg.pinned
+/-- The configuration that matches /repo's current source: `BlugeGen.C12` is regenerated by
+`go/extract/c12.go` from `index/snapshot.go` and `index/writer.go` on every run of `./check C12`, and the
+correspondence run compares this model with the real code. -/
+def currentCfg : Cfg :=
+  { boundedReads := BlugeGen.C12.boundedReads, uintLoop := BlugeGen.C12.uintLoop, crcCopy := BlugeGen.C12.crcCopy }
 
 /-- `maxAlloc` of the Go runtime on linux/amd64 (`1 << heapAddrBits`): a larger `make` panics -/
 def maxAlloc : Nat := 2 ^ 48
@@ -247,9 +261,9 @@ def maxAlloc : Nat := 2 ^ 48
 /-- `make([]byte, n)` for an `n` taken from the file (`int(n)` conversions included: `n ≥ 2^63` is
 negative as `int` and panics like any `n > maxAlloc`). The claims of one decode are summed: when the
 sum passes the budget `lim` the outcome is `alloc`. -/
-def makeBytes (lim : Nat) (n : Nat) (r : Rd) : Outcome Rd :=
-  if n > maxAlloc then .panic
-  else if r.alloc + n > lim then alloc (r.alloc + n)
+def makeBytes (site : Site) (lim : Nat) (n : Nat) (r : Rd) : Outcome Rd :=
+  if n > maxAlloc then .panic site
+  else if r.alloc + n > lim then alloc site (r.alloc + n)
   else ok { r with alloc := r.alloc + n }
 
 /-! ## roaring as a parameter -/
@@ -260,6 +274,12 @@ structure Roar (R : Type) where
   enc : R → Bytes
   dec : Bytes → Option R
   isEmpty : R → Bool
+
+/-- what the theorems assume about the roaring library: reading back a serialisation gives the set,
+and a serialisation is never empty (the format starts with a cookie) -/
+structure Roar.Lawful {R : Type} (ro : Roar R) : Prop where
+  dec_enc : ∀ d, ro.dec (ro.enc d) = some d
+  enc_ne : ∀ d, ro.enc d ≠ []
 
 /-- opaque payloads: the driver's instance when no oracle is needed -/
 def Roar.opaque (isEmpty : Bytes → Bool) : Roar Bytes := { enc := id, dec := some, isEmpty := isEmpty }
@@ -327,7 +347,7 @@ def readStrBytes (cfg : Cfg) (inp : Bytes) (lim n : Nat) (r : Rd) : Outcome (Byt
     | (some bs, r) => ok (bs, bs.length, r)
     | (none, _) => error .eof
   else do
-    let r ← makeBytes lim n r
+    let r ← makeBytes .str lim n r
     let (bs, e, r) := read inp n r
     if e then error .eof
     else ok (bs ++ List.replicate (n - bs.length) 0, bs.length, r)
@@ -345,7 +365,7 @@ def readDelBytes (cfg : Cfg) (inp : Bytes) (lim n : Nat) (r : Rd) : Outcome (Byt
     | (some bs, r) => ok (bs, r)
     | (none, _) => error .eof
   else do
-    let r ← makeBytes lim n r
+    let r ← makeBytes .del lim n r
     match readFull inp n r with
     | (some bs, r) => ok (bs, r)
     | (none, _) => error .eof
@@ -407,9 +427,9 @@ def decode (cfg : Cfg) (inp : Bytes) : Outcome (List (Seg R)) :=
   match readFrom ro cfg inp with
   | ok (ss, _, _) => ok ss
   | error e => error e
-  | .panic => .panic
-  | alloc n => alloc n
-  | fault => fault
+  | .panic s => .panic s
+  | alloc s n => alloc s n
+  | fault s => fault s
 
 /-! ## loadSnapshot -/
 
@@ -426,16 +446,16 @@ def loadSnapshot (cfg : Cfg) (mmap : Bool) (file : Bytes) : Outcome (List (Seg R
   let body := bodyOf file
   match readFrom ro cfg body with
   | ok (ss, _, r) =>
-    if file.length < 4 then .panic    -- d.mem[start:end] with start < 0 (not reachable: see `short_file_rejected`)
+    if file.length < 4 then .panic .crcBytes    -- d.mem[start:end] with start < 0 (not reachable: see `short_file_rejected`)
     else
       let computed := be32 (crc32 (body.take r.pos))
       if computed = trailerOf file then ok ss
-      else if mmap && !cfg.crcCopy then fault   -- closer.Close() unmapped fileCRCBytes, then "%x" reads it
+      else if mmap && !cfg.crcCopy then fault .crcBytes   -- closer.Close() unmapped fileCRCBytes, then "%x" reads it
       else error .crc
   | error e => error e
-  | .panic => .panic
-  | alloc n => alloc n
-  | fault => fault
+  | .panic s => .panic s
+  | alloc s n => alloc s n
+  | fault s => fault s
 
 /-- the rest of `loadSnapshot`: every decoded segment needs a registered plugin and a loadable file.
 `plugin typ ver`, `exists id` describe the configuration and the directory. -/
@@ -461,10 +481,36 @@ def openReader (cfg : Cfg) (mmap : Bool) (plugin : Bytes → BitVec 32 → Bool)
     match loadFull ro cfg mmap plugin segExists f with
     | ok ss => ok (i, ss)
     | error _ => openReader cfg mmap plugin segExists older (i + 1)
-    | .panic => .panic
-    | alloc n => alloc n
-    | fault => fault
+    | .panic s => .panic s
+    | alloc s n => alloc s n
+    | fault s => fault s
 
 end
+
+/-! ## specification-level definitions used by the C12 theorems -/
+
+section
+variable {R : Type} (ro : Roar R)
+
+/-- what the pinned decoder needs of a snapshot: every segment type name has 3..5 bytes — `Peek(10)` at the
+start of a segment must find 10 bytes (a shorter name makes the last segment of a file shorter than that),
+and `Read` is only guaranteed the 9 bytes that remain buffered after it (`typ.length + 5 ≤ 10`, name + 4
+version bytes); and the body is no larger than the largest Go allocation -/
+def PinnedHyp (segs : List (Seg R)) : Prop :=
+  (∀ s ∈ segs, 3 ≤ s.typ.length ∧ s.typ.length + 5 ≤ 10) ∧ (encBody ro segs).length ≤ 2 ^ 48
+
+end
+
+/-- The safety half of the property, for a configuration of the code: whatever the bytes, decoding and
+loading answer `ok` or `error` — no panic, no fault, and the memory claimed through length fields of the
+file stays within `64·|input| + 2^20` bytes. -/
+def SafeStatement (cfg : Cfg) : Prop :=
+  ∀ {R : Type} (ro : Roar R) (b : Bytes) (mmap : Bool),
+    (readFrom ro cfg b).safe = true ∧ (loadSnapshot ro cfg mmap b).safe = true
+
+/-- opaque payloads: the serialisation of a deleted set is the set; "empty" = the 8-byte empty roaring bitmap -/
+def opaqueRoar : Roar Bytes := Roar.opaque (fun b => b == [0x3a, 0x30, 0, 0, 0, 0, 0, 0])
+
+def iceT : Bytes := [0x69, 0x63, 0x65]
 
 end Bluge.Codec
